@@ -41,7 +41,7 @@ class Q:
     def __init__(self, name, harness, desc, defs=None, units=(), ll=(), cfg=None, unwind=1300,
                  unwindset=None, flags=(), timeout=600, mem_gb=12, witness=True, expect='pass',
                  stubs=False, entry='harness', kf=None, group=None, functions=(), replay=True,
-                 malloc_fail=False, sanitize=False, objbits=None, fsarray=None, std=SHIPPED_STD, mem_est=1.5):
+                 malloc_fail=False, sanitize=False, objbits=None, fsarray=None, std=SHIPPED_STD, mem_est=1.5, solver='kissat'):
         self.name = name; self.harness = harness; self.desc = desc
         self.defs = dict(defs or {}); self.units = list(units); self.ll = list(ll)
         self.cfg = dict(cfg or {}); self.unwind = unwind; self.unwindset = dict(unwindset or {})
@@ -49,7 +49,7 @@ class Q:
         self.witness = witness; self.expect = expect; self.stubs = stubs; self.entry = entry
         self.kf = kf; self.group = group or name.split(':')[0]; self.functions = list(functions)
         self.replay = replay; self.malloc_fail = malloc_fail; self.sanitize = sanitize
-        self.objbits = objbits; self.fsarray = fsarray; self.std = std; self.mem_est = mem_est
+        self.objbits = objbits; self.fsarray = fsarray; self.std = std; self.mem_est = mem_est; self.solver = solver
 
 
 class Unit:
@@ -231,8 +231,10 @@ class Runner:
                 r.status = 'error'; r.detail = 'link failed:\n' + out[-3000:]; return r
             link_warn = out
             cmd = ['cbmc', prog, '--function', q.entry, '--unwind', str(q.unwind), '--unwinding-assertions',
-                   '--drop-unused-functions', '--external-sat-solver', 'kissat', '--json-ui', '--trace',
-                   '--verbosity', '6']
+                   '--drop-unused-functions', '--json-ui', '--trace', '--verbosity', '6']
+            if q.solver == 'kissat': cmd += ['--external-sat-solver', 'kissat']
+            elif q.solver == 'cadical': cmd += ['--sat-solver', 'cadical']
+            # q.solver == 'builtin': CBMC's default SAT back end, used as a second opinion on small obligations
             if q.unwindset:
                 cmd += ['--unwindset', ','.join('%s:%d' % kv for kv in q.unwindset.items())]
             if q.malloc_fail: cmd += ['--malloc-may-fail', '--malloc-fail-null']
